@@ -888,6 +888,28 @@ def lin_cases(rng, n):
                                             for _ in range(rng.randrange(1, 4))))
             cases.append("subs=%d || %s" % (nsubs, " | ".join(progs)))
             continue
+        if rng.random() < 0.2:
+            # conditional writers racing with EQUAL values (equality on v/10, hash on v%10): compare and
+            # store must be one atomic step - of two concurrent set_if_not_eq(v) exactly one stores
+            nt = rng.randrange(2, 4)
+            e = rng.randrange(1, 9)
+            for t in range(nt):
+                ops = []
+                for _ in range(rng.randrange(1, 4)):
+                    r = rng.random()
+                    if r < 0.45:
+                        ops.append("set_if_not_eq(%d)" % (e * 10 + rng.randrange(3)))
+                    elif r < 0.7:
+                        ops.append("set_if_hash_not_eq(%d)" % (rng.randrange(1, 4) * 10 + e))
+                    elif r < 0.8:
+                        ops.append("take")
+                    elif r < 0.9:
+                        ops.append("update_if(%d,%d)" % (e * 10 + rng.randrange(3), rng.randrange(2)))
+                    else:
+                        ops.append("get")
+                progs.append(" ; ".join(ops))
+            cases.append("subs=0 || %s" % " | ".join(progs))
+            continue
         for t in range(nt):
             ops = []
             for _ in range(rng.randrange(2, 6)):
